@@ -283,7 +283,7 @@ def r3(ctx, R):
 
 
 @rule("C18.R4", "C18", "WMC", "spec registration is guarded; hooks are implemented; close releases first",
-      min_instances=10)
+      min_instances=10, also=("C19",))
 def r4(ctx, R):
     """`_specs[id(spec)] = spec` only in IOManager.add_spec under _can_add_spec; removal only in
     del_spec, which drops the IO when it empties; every concrete BaseIOSpec / BaseSharedIO
@@ -316,6 +316,49 @@ def r4(ctx, R):
     di = q.calls(ds, name="_del_io")
     if not di or not any(t.endswith(".specs") and l == "F" for t, l in q.guards_of(ds, di[0])):
         R.bad(ds, ds.node, "an IO without specs stays registered (its path stays taken)", stmt="_del_io")
+    gs = ctx.func("IOManager.get_spec_from_value")
+    R.inst("get_spec_from_value searches the asking model's IOs and the absolute-path ones only")
+    iv = [norm(v) for v in assigned_value(gs, "ios")]
+    upd = [c for c in q.calls(gs, name="update", recv="ios")]
+    gen = [n_ for n_ in walk_local(gs.node) if isinstance(n_, ast.GeneratorExp)]
+    if iv != ["self.get_ios(io_group)"] or not upd or [norm(a) for a in upd[0].args] != ["self.get_ios(None)"] or \
+            not gen or norm(gen[0].generators[0].iter) != "ios.values()":
+        R.bad(gs, gs.node, "a value's spec is looked up across all open models: closing or editing one model deletes "
+                           "another model's IOSpec for the same object", stmt="ios = get_ios(io_group) + get_ios(None)")
+    gi = ctx.func("IOManager.get_ios")
+    R.inst("get_ios filters by group")
+    if "if group == io_group" not in " ".join(ast.unparse(gi.node).split()):
+        R.bad(gi, gi.node, "IOs are not filtered by the model they belong to", stmt="group == io_group")
+    R.inst("every IO registry key is built by _get_io_key (absolute paths are shared, relative ones per model)")
+    IM = ctx.cls("IOManager")
+    nkeys = 0
+    for f in IM.methods.values():
+        if f.name == "_get_io_key":
+            continue
+        for x in walk_local(f.node):
+            keyexpr = None
+            if isinstance(x, ast.Subscript) and norm(x.value) == "self.ios":
+                keyexpr = x.slice
+            if isinstance(x, ast.Compare) and len(x.ops) == 1 and isinstance(x.ops[0], (ast.In, ast.NotIn)) \
+                    and norm(x.comparators[0]) == "self.ios":
+                keyexpr = x.left
+            if isinstance(x, ast.Call) and call_name(x) == "get" and call_recv(x) == "self.ios" and x.args:
+                keyexpr = x.args[0]
+            if keyexpr is None:
+                continue
+            nkeys += 1
+            src = keyexpr
+            if isinstance(keyexpr, ast.Name):
+                vs = assigned_value(f, keyexpr.id)
+                src = vs[0] if vs else keyexpr
+            ok = (isinstance(src, ast.Call) and call_name(src) == "_get_io_key") or \
+                 (isinstance(src, ast.Subscript) and "self.ios.inverse" in norm(src)) or \
+                 (isinstance(src, ast.Call) and call_name(src) == "next") or \
+                 (isinstance(src, ast.Name) and not assigned_value(f, src.id))
+            if not ok:
+                R.bad(f, x, "IO registry key `%s` is not built by _get_io_key: absolute and relative locations are "
+                            "keyed inconsistently, two specs can claim one file" % norm(keyexpr))
+    R.need(nkeys >= 6, "expected >=6 uses of the IO registry key, found %d" % nkeys)
     B = ctx.cls("BaseIOSpec")
     for ci in sorted(B.subclasses, key=lambda c: c.key):
         if not ci.module.name.startswith("modelx.io"):
